@@ -34,7 +34,8 @@ ASSUMPTIONS = ["documented grammar: docs/users_guide/units_and_concentrations.rs
 def shard_config(shard, tier):
     """two of eight shards run with storage units whose prefixes differ from each other and from the shipped ones (a
     documented setting; what a string denotes does not depend on it)"""
-    return {5: {'moles_storage_unit': 'mmol'}, 6: {'volume_storage_unit': 'mL', 'moles_storage_unit': 'umol'}}.get(shard % 8)
+    return {5: {'moles_storage_unit': 'mmol'}, 6: {'volume_storage_unit': 'mL', 'moles_storage_unit': 'umol'},
+            3: {'default_weight_volume_units': 'g/L'}}.get(shard % 8)      # %w/v means parts per hundred of THIS unit
 
 
 REQUIRED_CLASSES = {'quick': ['q:valid', 'c:ratio', 'c:ratiow', 'c:M', 'c:m', 'c:pct', 'family', 'api', 'malformed:q',
@@ -50,7 +51,7 @@ def dec_value(draw, lo=-6, hi=6):
     m = draw(st.integers(1, 99999))
     e = draw(st.integers(lo, hi))
     frac = Fraction(m) * Fraction(10) ** e
-    return frac, dec_text(_frac_to_decstr(frac), draw(st.integers(0, 2)))
+    return frac, dec_text(_frac_to_decstr(frac), draw(st.integers(0, 4)))
 
 
 def close_parse(cfg, got, exact):
@@ -106,7 +107,7 @@ def family(cfg, x, num, den, draw):
     out = []
 
     def txt(v):
-        return dec_text(_frac_to_decstr(v), draw(st.integers(0, 2)))
+        return dec_text(_frac_to_decstr(v), draw(st.integers(0, 4)))
     for _ in range(4):
         pn = '' if num == 'U' else draw(st.sampled_from(PREFIX_LIST))
         pd = draw(st.sampled_from(PREFIX_LIST))
@@ -178,7 +179,7 @@ def two_spellings(draw, frac, fam):
     outs = []
     for _ in range(2):
         p = '' if fam == 'U' else draw(st.sampled_from(PREFIX_LIST))
-        outs.append(f"{txt(frac / PREFIXES[p], draw(st.integers(0, 2)))} {p}{fam}")
+        outs.append(f"{txt(frac / PREFIXES[p], draw(st.integers(0, 4)))} {p}{fam}")
     return outs
 
 
